@@ -498,6 +498,22 @@ Definition rfc_class (b r : str) : bool :=
   end.
 
 (* ---------- validity predicates (boolean) ---------- *)
+(* the byte list is the content of a &str: lead bytes followed by the right number of continuation
+   bytes (all that matters for character boundaries; overlong forms and surrogates are not
+   excluded).  [run m s] scans s with m continuation bytes pending. *)
+Definition lead_len (c : N) : option nat :=
+  if (c <? 128)%N then Some 0 else if (c <? 192)%N then None else if (c <? 224)%N then Some 1
+  else if (c <? 240)%N then Some 2 else if (c <? 248)%N then Some 3 else None.
+Fixpoint run (m : nat) (s : str) : option nat :=
+  match s with
+  | [] => Some m
+  | c :: s' => match m with
+               | O => match lead_len c with Some k => run k s' | None => None end
+               | S m' => if is_cont c then run m' s' else None
+               end
+  end.
+Definition utf8_ok (s : str) : bool := match run 0 s with Some O => true | _ => false end.
+
 (* an absolute IRI as far as the structure goes: it has a scheme *)
 Definition abs_iri (s : str) : bool := match positions_of s with Some _ => true | None => false end.
 
